@@ -382,6 +382,37 @@ def commands(ctx, f):
     ok_else = len(final_else) == 1 and isinstance(final_else[0], ast.Raise) and astq.is_name(final_else[0].exc, "error")
     ctx.check(ok_else, R, f, final_else[0] if final_else else MISSING(loop), "an unknown command raises the caller's error",
               "the dispatch does not end in `else: raise error`; an unknown command would be ignored or mis-decoded")
+    # the command number is an unbounded Rice code: until the dispatch has placed it, it may only be compared
+    pm = astq.parents(f)
+    what_cmp = "the command number is only compared before the dispatch has recognised it (any other number reaches `raise error`)"
+    n_use = 0
+    for x in ast.walk(loop):
+        if not (isinstance(x, ast.Name) and x.id == "cmd" and isinstance(x.ctx, ast.Load)):
+            continue
+        n_use += 1
+        par = pm.get(id(x))
+        if isinstance(par, ast.Compare):
+            continue
+        anc = list(astq.ancestors(pm, x))
+        # inside a branch the dispatch chain selected, or under a test that bounds it
+        guarded = any(isinstance(a, ast.If) and any(isinstance(y, ast.Name) and y.id == "cmd" for y in ast.walk(a.test)) and a.test not in anc for a in anc)
+        caught = any(isinstance(a, ast.Try) and any(x in list(ast.walk(st)) for st in a.body) and any(
+            h.type is None or any(t in astq.text(h.type) for t in ("IndexError", "KeyError", "LookupError", "Exception")) for h in a.handlers) for a in anc)
+        if guarded or caught:
+            continue
+        use = None
+        for a in anc:
+            if isinstance(a, ast.Subscript) and any(y is x for y in ast.walk(a.slice)):
+                use = "indexes %s" % astq.text(a.value)[:40]
+                break
+        if use is None and isinstance(par, ast.Call) and x in par.args and isinstance(par.func, ast.Attribute) and par.func.attr in ("get", "count", "index"):
+            if par.func.attr == "get":
+                continue
+        if use is None:
+            continue
+        ctx.bad(R, f, astq.enclosing_stmt(pm, x), "the command number read from the stream %s before the dispatch has recognised it: a number outside the command set "
+                "fails there (IndexError / a wrong slot) instead of reaching `raise error`" % use, what_cmp, robust=True)
+    ctx.ok(R, f.loc(loop), what_cmp, "%d use(s) of cmd inspected" % n_use)
     for c in sorted(ALL_CMDS):
         ctx.check(len(handled.get(c, [])) == 1, R, f, loop, "%s is dispatched exactly once" % c,
                   "%s is handled %d times by the command dispatch" % (c, len(handled.get(c, []))))
